@@ -19,13 +19,15 @@ Recipe (plain JSON):
 
     riscv ops: ["li", imm, rd] ["mv", a, rd] ["bin", k, a, b, rd] ["imm", k, a, imm, rd] ["fcvt", a, rd]
                ["fcvtw", a, rd] ["fmv", a, rd] ["fbin", k, a, b, rd] ["pmov", [a, ...], [rd, ...]]
-               ["for", lb, ub, step, flags, ivrd, [[kind, ref], ...], [body op, ...], [yref, ...]]
+               ["for", lb, ub, step, flags, ivrd, [[kind, ref, fresh], ...], [body op, ...], [yref, ...]]
     x86 ops:   ["li", imm, rd] (di.mov) ["mv", a, rd] (ds.mov) ["rs", k, a, b] ["r", k, a] ["ri", k, a, imm]
                ["dsi", a, imm, rd] ["cmp", a, b] ["vb", a, rd] ["vadd", a, b, rd] ["vfma", a, b, c]
-               ["pmov", [a, ...], [rd, ...]] ["for", lb, ub, step, flags, ivrd, [[kind, ref], ...], body, yrefs]
+               ["pmov", [a, ...], [rd, ...]] ["for", lb, ub, step, flags, ivrd, [[kind, ref, fresh], ...], body, yrefs]
     (`for`: lb/ub/step are small constants materialised by li / di.mov in front of the loop (flags bit 0:
-    step as attribute, x86 bit 1: ub as attribute); yields are chosen among the values of the iter_arg's
-    exact type that are visible at the end of the body (a move is appended when there is none).)
+    step as attribute, x86 bit 1: ub as attribute); fresh=1: the init is a copy made just for the loop;
+    yref % 4 selects the yielded value among the values of the iter_arg's exact type: 0/1 defined in the body
+    (else a move of the block argument / of some value is appended), 2 any visible value except this loop's
+    block arguments, 3 any visible value; yref // 4 picks among the candidates.)
 
 build(recipe) makes one module with one riscv_func.func / x86_func.func.  x86 functions are first passed
 through x86-regalloc-legalize (as the x86 pipeline does) so that the documented precondition of the x86
@@ -120,6 +122,13 @@ def _list(x):
 
 # ================================================================================================
 # builders
+def iter_item(it):
+    it = _list(it)
+    if len(it) == 2:
+        return it[0], it[1], 0
+    kind, ref, fresh = it
+    return kind, ref, _int(fresh) % 2
+
 class Scope:
     def __init__(self, vals=None):
         self.vals = list(vals or [])       # (SSAValue, kind)
@@ -285,30 +294,40 @@ class RVBuilder:
             stepv = sc.add(self._emit(out, self.const(step, self.UI)).rd, "i")
         inits = []
         for it in _list(iters)[:4]:
-            kind, ref = _list(it)
+            kind, ref, fresh = iter_item(it)
             if kind not in ("i", "f"):
                 raise BadRecipe(f"kind {kind!r}")
-            inits.append((self.need(sc, kind, ref, out), kind))
+            v = self.need(sc, kind, ref, out)
+            if fresh:
+                # a copy that only the loop uses (not visible to later ops)
+                m = self.mov(v, self.UI if kind == "i" else self.UF, kind)
+                out.append(m)
+                v = m.results[0]
+            inits.append((v, kind))
         blk = Block(arg_types=[self.ty("i", ivrd)] + [v.type for v, _ in inits])
         inner = sc.child()
         inner.add(blk.args[0], "i")
         for a, (_, kind) in zip(blk.args[1:], inits):
             inner.add(a, kind)
+        n_outer = len(inner.vals)
         bops = []
         self.ops(body, inner, bops, depth + 1)
         ys = []
         yrefs = _list(yrefs)
         for j, (v, kind) in enumerate(inits):
             ref = _int(yrefs[j]) if j < len(yrefs) else 0
-            cands = [x for x in inner.of(kind) if x.type == v.type]
-            if ref % 4 != 3:
-                # usually do not yield a block argument of this loop directly (a move is appended instead)
-                own = set(blk.args)
-                cands = [x for x in cands if x not in own]
+            ymode, ref = ref % 4, ref // 4
+            own = set(blk.args)
+            if ymode <= 1:      # a value defined in the body
+                cands = [x for x, k in inner.vals[n_outer:] if k == kind and x.type == v.type and x not in own]
+            elif ymode == 2:    # any visible value except the block arguments of this loop
+                cands = [x for x in inner.of(kind) if x.type == v.type and x not in own]
+            else:               # any visible value
+                cands = [x for x in inner.of(kind) if x.type == v.type]
             if cands:
                 ys.append(cands[-1 - (ref % len(cands))])
             else:
-                src = self.need(inner, kind, ref, bops)
+                src = blk.args[1 + j] if ymode == 0 else self.need(inner, kind, ref, bops)
                 m = self.mov(src, v.type, kind)
                 bops.append(m)
                 ys.append(inner.add(m.results[0], kind))
@@ -419,19 +438,19 @@ class X86Builder:
                 cls = [o.RS_AddOp, o.RS_SubOp, o.RS_ImulOp, o.RS_AndOp, o.RS_OrOp, o.RS_XorOp][_int(k) % 6]
                 x = self.need(sc, "i", a, out)
                 y = self.need(sc, "i", b, out)
-                op = cls(x, y, register_out=self.UI if not x.type.is_allocated else x.type)
+                op = cls(x, y, register_out=self.UI)
                 out.append(op)
                 sc.add(op.register_out, "i")
             elif h == "r":
                 _, k, a = rec
                 cls = [o.R_NegOp, o.R_NotOp, o.R_IncOp, o.R_DecOp][_int(k) % 4]
-                op = cls(self.need(sc, "i", a, out))
+                op = cls(self.need(sc, "i", a, out), register_out=self.UI)
                 out.append(op)
                 sc.add(op.register_out, "i")
             elif h == "ri":
                 _, k, a, imm = rec
                 cls = [o.RI_AddOp, o.RI_SubOp, o.RI_AndOp, o.RI_OrOp, o.RI_XorOp][_int(k) % 5]
-                op = cls(self.need(sc, "i", a, out), _int(imm))
+                op = cls(self.need(sc, "i", a, out), _int(imm), register_out=self.UI)
                 out.append(op)
                 sc.add(op.register_out, "i")
             elif h == "dsi":
@@ -461,7 +480,7 @@ class X86Builder:
                 x = self.need(sc, "v", a, out)
                 y = self.need(sc, "v", b, out)
                 z = self.need(sc, "v", c, out)
-                op = o.RSS_Vfmadd231pdOp(x, y, z)
+                op = o.RSS_Vfmadd231pdOp(x, y, z, register_out=self.UV)
                 out.append(op)
                 sc.add(op.register_out, "v")
             elif h == "pmov":
@@ -498,7 +517,7 @@ class X86Builder:
         lb, ub, step, flags = _int(lb) % 8, _int(ub) % 8, 1 + _int(step) % 3, _int(flags)
         lbop = o.DI_MovOp(lb, destination=self.ty("i", ivrd))
         out.append(lbop)
-        lbv = sc.add(lbop.destination, "i")
+        lbv = lbop.destination       # consumed by the loop (in/out): not visible to later ops
         if flags & 2:
             ubv = IntegerAttr(ub, si32)
         else:
@@ -513,30 +532,42 @@ class X86Builder:
             stepv = sc.add(stop.destination, "i")
         inits = []
         for it in _list(iters)[:4]:
-            kind, ref = _list(it)
+            kind, ref, fresh = iter_item(it)
             if kind not in ("i", "v"):
                 raise BadRecipe(f"kind {kind!r}")
-            inits.append((self.need(sc, kind, ref, out), kind))
+            v = self.need(sc, kind, ref, out)
+            if fresh or v.type.is_allocated:
+                # a copy that only the loop uses; always for pre-allocated values: x86-regalloc-legalize gives
+                # its own copies an unallocated type, which no longer matches a pre-allocated block argument
+                m = (o.DS_MovOp(v, destination=self.UI) if kind == "i"
+                     else o.DS_VmovapdOp(v, destination=self.UV))
+                out.append(m)
+                v = m.results[0]
+            inits.append((v, kind))
         blk = Block(arg_types=[lbv.type] + [v.type for v, _ in inits])
         inner = sc.child()
         inner.add(blk.args[0], "i")
         for a, (_, kind) in zip(blk.args[1:], inits):
             inner.add(a, kind)
+        n_outer = len(inner.vals)
         bops = []
         self.ops(body, inner, bops, depth + 1)
         ys = []
         yrefs = _list(yrefs)
         for j, (v, kind) in enumerate(inits):
             ref = _int(yrefs[j]) if j < len(yrefs) else 0
-            cands = [x for x in inner.of(kind) if x.type == v.type]
-            if ref % 4 != 3:
-                # usually do not yield a block argument of this loop directly (a move is appended instead)
-                own = set(blk.args)
-                cands = [x for x in cands if x not in own]
+            ymode, ref = ref % 4, ref // 4
+            own = set(blk.args)
+            if ymode <= 1:      # a value defined in the body
+                cands = [x for x, k in inner.vals[n_outer:] if k == kind and x.type == v.type and x not in own]
+            elif ymode == 2:    # any visible value except the block arguments of this loop
+                cands = [x for x in inner.of(kind) if x.type == v.type and x not in own]
+            else:               # any visible value
+                cands = [x for x in inner.of(kind) if x.type == v.type]
             if cands:
                 ys.append(cands[-1 - (ref % len(cands))])
             else:
-                src = self.need(inner, kind, ref, bops)
+                src = blk.args[1 + j] if ymode == 0 else self.need(inner, kind, ref, bops)
                 if kind == "i":
                     m = o.DS_MovOp(src, destination=v.type)
                 else:
@@ -1337,6 +1368,8 @@ def run_one(h, recipe):
         if s["feature"] == "prealloc":
             # did the allocator's own scan (all_used_registers) see the pre-allocated register involved?
             s["excluded"] = "yes" if reg in seen_by_allocator else "no"
+        if reg is not None and isinstance(reg[1], int) and reg[1] < 0:
+            s["infinite"] = "yes"       # the register involved is an infinite (j_N / inf_reg_N) register
         if extra:
             s.update(extra)
         if stale:
@@ -1497,10 +1530,11 @@ def rv_ops(draw, depth, dens, maxn):
 @st.composite
 def rv_for(draw, depth, dens):
     nit = draw(st.sampled_from([0, 1, 1, 1, 2, 2, 3]))
-    iters = [[draw(st.sampled_from(["i", "i", "i", "f"])), draw(REF)] for _ in range(nit)]
+    iters = [[draw(st.sampled_from(["i", "i", "i", "f"])), draw(REF), draw(st.sampled_from([0, 1, 1]))]
+             for _ in range(nit)]
     body = draw(rv_ops(depth + 1, dens, 6))
     return ["for", draw(st.integers(0, 3)), draw(st.integers(0, 5)), draw(st.integers(0, 2)),
-            draw(st.integers(0, 1)), _rd(draw, dens), iters, body, [draw(st.integers(0, 7)) for _ in range(nit)]]
+            draw(st.integers(0, 1)), _rd(draw, dens), iters, body, [draw(st.sampled_from([0, 0, 1, 1, 2, 3, 4, 5, 6, 9, 13])) for _ in range(nit)]]
 
 
 def rv_mode():
@@ -1553,7 +1587,7 @@ def pressure(draw, arch, nmax):
         # not tracked exactly: the loop defines extra ints, refs below are computed from its result count
         loop = ops[-1]
         extra = (2 + (0 if loop[4] & 1 else 1)) if arch == "riscv" else (
-            1 + (0 if loop[4] & 2 else 1) + (0 if loop[4] & 1 else 1))
+            (0 if loop[4] & 2 else 1) + (0 if loop[4] & 1 else 1))
         k = "i"
         extra += sum(1 for it in loop[6] if it[0] == k)
         if arch == "x86":
@@ -1629,11 +1663,12 @@ def x86_ops(draw, depth, dens, maxn):
 @st.composite
 def x86_for(draw, depth, dens):
     nit = draw(st.sampled_from([0, 1, 1, 1, 2, 2, 3]))
-    iters = [[draw(st.sampled_from(["i", "i", "i", "v"])), draw(REF)] for _ in range(nit)]
+    iters = [[draw(st.sampled_from(["i", "i", "i", "v"])), draw(REF), draw(st.sampled_from([0, 1, 1]))]
+             for _ in range(nit)]
     body = draw(x86_ops(depth + 1, dens, 6))
     return ["for", draw(st.integers(0, 3)), draw(st.integers(0, 5)), draw(st.integers(0, 2)),
             draw(st.integers(0, 3)), _rd(draw, dens, 14), iters, body,
-            [draw(st.integers(0, 7)) for _ in range(nit)]]
+            [draw(st.sampled_from([0, 0, 1, 1, 2, 3, 4, 5, 6, 9, 13])) for _ in range(nit)]]
 
 
 def x86_mode():
